@@ -2929,8 +2929,6 @@ class MOFCompiler:
                 self.parser.mof = mof
                 _ = self.parser.parse(mof, lexer=lexer)
 
-            self.parser.file = oldfile
-            self.parser.mof = oldmof
             return self.parser.embedded_objects
         except MOFCompileError as pe:
             # Generate the error message into log and reraise error
@@ -2940,6 +2938,11 @@ class MOFCompiler:
             # Force the embedded_iobjects variable to be reset telling the
             # compiler not to insert new objects into this variable
             self.parser.embedded_objects = None
+            # Restore the file and MOF of the statement containing the
+            # embedded value, also if the compile failed: The caller may
+            # report an error about that statement.
+            self.parser.file = oldfile
+            self.parser.mof = oldmof
 
     def compile_string(self, mof, ns, filename=None):
         """
